@@ -59,6 +59,12 @@ CLAIMED = {
                 text='Proof (loop invariants for the two monotone pointers, symbolic node vectors) that every segment emitted by _volume_average_weights has positive length, valid cell indices, its centre in the stated output cell and in the stated (or nearest) input cell; '
                      'that interp_volume_average adds w_z w_y w_x values[in] to new[out] per triple of segments and divides by the cell volume (hence linear with non-negative weights); that interpolate(method=volume) always runs this kernel (log10 before / 10** after in log mode) '
                      'and that Model.interpolate_to_grid uses log mode exactly for the linear mappings.'),
+    'C16': dict(ref='5 (C16)', tech=TECH + '; numpy sequences of arbitrary length as symbolic prefix-sum sequences; generic loop iteration under an invariant',
+                note=NOTE + ' The sea-surface search (brentq), the cut of a user vector and estimate_gridding_opts are outside the proof; the first two are covered by the bounded concrete check only. np.linspace/np.unique element contracts assumed.',
+                text='Proof along the call chain construct_mesh -> origin_and_widths -> _stretch/_seasurface: per-direction routing and RuntimeError when any direction has no grid; survey domain, centre part (node or cell centre) and computational domain '
+                     '(domain -/+ min(lambda_factor*wavelength, max_buffer), or the from-centre variant) on all paths; search nest under a loop invariant for any number of iterations: what is returned is a successful use_up _stretch over the computational domain '
+                     'of a successful _stretch over the survey domain for the current permitted cell number, else RuntimeError / None; _stretch for every nx and centre part (cell count, coverage, geometric growth with the given factor, positivity, origin/end consistent); '
+                     '_seasurface warns exactly when the sea surface is not a node of what it returns; skin depth / wavelength / cell width closed forms; the statement as a lemma over these contracts. Plus a bounded check of all postconditions on the real functions.'),
     'C18': dict(ref='5 (C18)', tech=TECH + '; the real parser executed on an abstract ConfigParser with an opaque unknown key',
                 note=NOTE + ' Equality of computed results between CLI and API is only covered by the bounded concrete run; configparser / pathlib behaviour is modelled.',
                 text='Proof obligations over the real configuration parser: the recognised key set of every section is observed from the parser itself; every recognised key reaches its destination; any other key is rejected with TypeError in every section; '
